@@ -136,7 +136,7 @@ func (e *Engine) Discharge(cfg SolverCfg) {
 				ob.Solver = "simplifier"
 				continue
 			}
-			instHints = ob.Hints
+			e.instHints = ob.Hints
 			q = c.Query(e.prepareGoal(ob.Hyp, ob.Goal), ob.ModelTerms)
 		}
 		q = "; " + ob.Name + "\n; " + strings.Replace(ob.Clause, "\n", " ", -1) + "\n" + q
